@@ -19,6 +19,13 @@ Fail(i, law, op, w) == <<[i |-> i, law |-> law, op |-> op, w |-> w]>>
 SeqIf(c, s) == IF c THEN s ELSE <<>>
 Bad == <<"!", 0, <<>>>>
 
+\* a conditional chain of depth >= 3: a decision with a single child decision that has children itself
+\* (to_numbers(flatten=False) is known to fold such a chain into a list today)
+RECURSIVE HasChain3(_)
+HasChain3(t) == \/ TKind(t) = "i" /\ Len(TKids(t)) = 1 /\ TKind(TKids(t)[1]) = "i" /\ TKids(TKids(t)[1]) # <<>>
+                \/ \E j \in 1..Len(TKids(t)) : HasChain3(TKids(t)[j])
+NestedViews == {"numbers_nested", "parse_nested"}
+
 SameOps == {"clone", "deep_clone", "deepcopy", "from_numbers", "parse", "from_dict", "from_json"}
 
 \* f = [d \in Valid(sp) |-> Tree(sp, d)], computed once per spec
@@ -42,12 +49,19 @@ MultiRef(sp, d, id, k) ==
                 THEN ds[CHOOSE x \in 1..Len(ds) : ds[x][1] = Append(id, Sub(j))][2] ELSE Inactive
   IN IF \A j \in 0..(k-1) : sub(j) = Inactive THEN <<Inactive>> ELSE [j \in 1..k |-> sub(j-1)]
 
+\* (an id the model does not know -- the harness reads ids off the real spec -- answers Bad, never a TLC error)
 NameRef(sp, d, id) ==
   LET ms == Multis(sp)
       dps == Dps(sp)
   IN IF \E m \in 1..Len(ms) : ms[m].id = id
      THEN MultiRef(sp, d, id, ms[CHOOSE m \in 1..Len(ms) : ms[m].id = id].k)
-     ELSE <<LookupRef(sp, d)[CHOOSE k \in 1..Len(dps) : dps[k].id = id]>>
+     ELSE IF \E k \in 1..Len(dps) : dps[k].id = id
+     THEN <<LookupRef(sp, d)[CHOOSE k \in 1..Len(dps) : dps[k].id = id]>>
+     ELSE <<Bad>>
+MultiRefById(sp, d, id) ==
+  LET ms == Multis(sp) IN
+  IF \E m \in 1..Len(ms) : ms[m].id = id
+  THEN MultiRef(sp, d, id, ms[CHOOSE m \in 1..Len(ms) : ms[m].id = id].k) ELSE <<Bad>>
 
 DnaLaws(i, sp, f, x) ==
   LET t == x.tree IN
@@ -60,14 +74,17 @@ DnaLaws(i, sp, f, x) ==
       badrt == { j \in 1..Len(x.rts) : x.rts[j][2] # t \/ ~x.rts[j][3] }
       badlk == { k \in 1..Len(x.lookups) : k > Len(lk) \/ \E c \in 1..3 : x.lookups[k][c] # lk[k] }
       badmu == { j \in 1..Len(x.multis) :
-                   LET r == MultiRef(sp, d, x.multis[j][1], ms[CHOOSE m \in 1..Len(ms) : ms[m].id = x.multis[j][1]].k)
+                   LET r == MultiRefById(sp, d, x.multis[j][1])
                    IN x.multis[j][2] # r \/ x.multis[j][3] # r }
       badnm0 == { j \in 1..Len(x.names) : x.names[j][2] # NameRef(sp, d, x.names[j][1]) }
       \* d[name] raising for a decision point that exists but is inactive (documented answer: None)
       badnmI == { j \in badnm0 : NameRef(sp, d, x.names[j][1]) = <<Inactive>> /\ x.names[j][2] = <<Bad>> }
       badnm == badnm0 \ badnmI
   IN FlattenSeq([j \in 1..Len(x.anns) |-> SeqIf(j \in badann, Fail(i, "aligned", x.anns[j][1], <<t, x.anns[j][2]>>))])
-  \o FlattenSeq([j \in 1..Len(x.rts) |-> SeqIf(j \in badrt, Fail(i, "roundtrip", x.rts[j][1], <<t, x.rts[j][2], x.rts[j][3]>>))])
+  \o FlattenSeq([j \in 1..Len(x.rts) |->
+       SeqIf(j \in badrt, Fail(i, IF x.rts[j][1] \in NestedViews /\ HasChain3(t)
+                                  THEN "roundtrip_nested_numbers_of_chain3" ELSE "roundtrip",
+                               x.rts[j][1], <<t, x.rts[j][2], x.rts[j][3]>>))])
   \o SeqIf(Len(x.lookups) # Len(lk) \/ badlk # {}, Fail(i, "lookup_by_decision_point_or_id", "getitem", <<t, badlk>>))
   \o SeqIf(badmu # {}, Fail(i, "lookup_multi_choice", "getitem", <<t, badmu>>))
   \o SeqIf(badnm # {}, Fail(i, "lookup_by_name", "getitem", <<t, badnm>>))
@@ -78,7 +95,8 @@ DnaLaws(i, sp, f, x) ==
 
 StepVerdict(sp, f, st) ==
   LET op == st[1]  in == st[2]  out == st[3]  po == Plain(st[3]) IN
-  IF ~IsV(f, po) THEN "result_not_valid"
+  IF out[1] = "!" THEN (IF op = "parse" /\ HasChain3(in) THEN "op_raised_nested_numbers_of_chain3" ELSE "op_raised")
+  ELSE IF ~IsV(f, po) THEN "result_not_valid"
   ELSE IF out # ATree(sp, AbsOf(f, po)) THEN "aligned"
   ELSE IF st[4] # st[5] THEN "views_differ_from_rebuilt"
   ELSE IF ~st[6] THEN "input_modified"
